@@ -187,6 +187,52 @@ theorem epoch_binds_psk_list (P : Prim B) (hP : FreePsk P) (j ctx : B) (l l' : L
         · exact e.2.2.2.2.2.2.2.2 h
       exact psk_injective' P hP l l' hl (by rw [hs, hs', this])
 
+/-- The same statement for the entry point the group state machine uses (`epochOfCommit`, tied to real
+commits of real groups by the `eks` rows): existing members that start from the same init secret, commit
+secret and new context and agree on any one of the nine epoch secrets used the same PSK list — same ids,
+nonces, values, order and count. -/
+theorem commit_epoch_binds_psk_list (P : Prim B) (hP : FreePsk P) (init ctx : B) (cs : Option B)
+    (l l' : List (PskInput B)) (o o' : EpochOut B)
+    (h : epochOfCommit P init cs ctx l = some o) (h' : epochOfCommit P init cs ctx l' = some o')
+    (heq : o.resumption = o'.resumption ∨ o.senderData = o'.senderData ∨
+      o.encryption = o'.encryption ∨ o.exporter = o'.exporter ∨
+      o.authentication = o'.authentication ∨ o.external = o'.external ∨
+      o.membership = o'.membership ∨ o.init = o'.init ∨ o.confirmationKey = o'.confirmationKey) :
+    l = l' := by
+  let j := expandWithLabel P (P.extract init (cs.getD (P.zeros P.nh))) "joiner" ctx none
+  refine epoch_binds_psk_list P hP j ctx l l' (fromJoiner P j ctx ((pskSecret P l).getD (P.zeros 0)))
+    (fromJoiner P j ctx ((pskSecret P l').getD (P.zeros 0))) ?_ ?_ ?_
+  · unfold epochOfCommit at h; unfold epochOfPsks
+    cases hs : pskSecret P l with
+    | none => rw [hs] at h; cases h
+    | some s => rfl
+  · unfold epochOfCommit at h'; unfold epochOfPsks
+    cases hs : pskSecret P l' with
+    | none => rw [hs] at h'; cases h'
+    | some s => rfl
+  · unfold epochOfCommit at h h'
+    cases hs : pskSecret P l with
+    | none => rw [hs] at h; cases h
+    | some s =>
+      cases hs' : pskSecret P l' with
+      | none => rw [hs'] at h'; cases h'
+      | some s' =>
+        rw [hs] at h; rw [hs'] at h'
+        simp only [Option.map_some, Option.some.injEq] at h h'
+        subst h; subst h'
+        simpa [fromKeySchedule, j] using heq
+
+/-- … and the holders of the same list enter the same epoch. -/
+theorem commit_holders_agree (P : Prim B) (init ctx : B) (cs : Option B) (l l' : List (PskInput B))
+    (h : l = l') : epochOfCommit P init cs ctx l = epochOfCommit P init cs ctx l' := by rw [h]
+
+/-- A commit without PSK proposals uses the all-zero PSK secret, a commit without an update path the
+all-zero commit secret (what the `eks` rows of such commits are computed from). -/
+theorem commit_without_psk_or_path (P : Prim B) (init ctx : B) :
+    epochOfCommit P init none ctx [] =
+      some (fromKeySchedule P init (P.zeros P.nh) ctx (P.zeros P.nh)) := by
+  simp [epochOfCommit, pskSecret, pskFoldAux]
+
 /-- the same for the Welcome: agreeing on the key or on the nonce forces the same PSK list -/
 theorem welcome_binds_psk_list (P : Prim B) (hP : FreePsk P) (j : B) (l l' : List (PskInput B))
     (w w' : B × B) (h : welcomeOfPsks P j l = some w) (h' : welcomeOfPsks P j l' = some w')
